@@ -200,6 +200,11 @@ class Ctx:
 
     def check_final(self, *extra):
         """a verdict-relevant check: incremental first, then one-shot in a fresh solver (stronger preprocessing)"""
+        if self.uclauses:
+            # a model taken from this check is turned into a witness: the clauses kept in the unary store must bind it too
+            for cl in self.uclauses:
+                for u in cl:
+                    self.relvars.add(u.v.get_id())
         r = self.check(*extra)
         if r != z3.unknown:
             return r, self.last_model
